@@ -7,8 +7,8 @@ accepts, refused INSERT).
 
 * **`SpecRefineB1`** - refusals of DELETE and UPDATE (C14): `filterIds_fail` (a WHERE the spec cannot
   evaluate is an executor error of the model, never a panic), `evalDelete_refused_spec(V)`,
-  `UpdRefusal`, `evalUpdate_refused_spec(V)` (column source, unknown table, WHERE not evaluable, first
-  selected row not rewritable): nothing is changed (`Same`), the log is untouched.
+  `UpdRefusal`, `evalUpdate_refused_spec(V)` (column source, unknown table, unknown / repeated SET
+  column, WHERE not evaluable, first selected row not rewritable): nothing is changed (`Same`), the log is untouched.
 * **`SpecRefineB2`** - totality: `Total`, `evalInsert_total`, `evalDelete_total`, `evalUpdate_total`.
 * **`SpecRefineB3`** - CREATE TABLE: `colField_eq`, `NoStale`, `evalCreateTable_refines_specV`,
   `CreateRefusal`, `evalCreateTable_refused_specV`, `evalCreateTable_catalog_refused`.
@@ -90,6 +90,26 @@ theorem create_refused_example :
     ∃ e db', evalStmt dbA [] (.createTable tname bcols) = .err e db' ∧ db'.wal = dbA.wal ∧
       Rel db' pt0 sch1 [(tname, t0)] sdbA0 :=
   evalStmt_refused_spec dbA [] pt0 sch1 [(tname, t0)] sdbA0 rel1 _ (.create tname bcols (.exists_ rfl))
+
+/-- **Non-vacuity of the refusals by column name.**  On the concrete store, `UPDATE t SET b = 1` (the
+table `t (a INT)` has no column `b`; no row need be selected) and
+`CREATE TABLE u (b VARCHAR(10), b VARCHAR(10))` (one column name twice) are refused by the spec and by
+the model; the log is untouched and the relation holds with the same catalog and spec database. -/
+theorem names_refusals_example :
+    (Spec.specStmt sdbA0 (.update tname [([98], .lit (.int 1))] none) = none ∧
+      ∃ e db', evalStmt dbA [] (.update tname [([98], .lit (.int 1))] none) = .err e db' ∧ db'.wal = dbA.wal ∧
+        Rel db' pt0 sch1 [(tname, t0)] sdbA0) ∧
+    (Spec.specStmt sdbA0 (.createTable uname (bcols ++ bcols)) = none ∧
+      ∃ e db', evalStmt dbA [] (.createTable uname (bcols ++ bcols)) = .err e db' ∧ db'.wal = dbA.wal ∧
+        Rel db' pt0 sch1 [(tname, t0)] sdbA0) := by
+  constructor
+  · exact evalStmt_refused_spec dbA [] pt0 sch1 [(tname, t0)] sdbA0 rel1 _
+      (.update tname _ none (.names ⟨tname, schemaA, []⟩
+        (by intro p hp c hc; simp only [List.mem_singleton] at hp; subst hp; cases hc) rfl (by decide)))
+  · have h1 : uname ≠ sysPages := by rw [sysPages_eq]; decide
+    have h2 : uname ≠ sysSchema := by rw [sysSchema_eq]; decide
+    exact evalStmt_refused_spec dbA [] pt0 sch1 [(tname, t0)] sdbA0 rel1 _
+      (.create uname _ (.dupColumn rfl h1 h2 (by simp [bcols])))
 
 /-! ### refused DELETE / UPDATE on the table with the rows `(5), (6)` -/
 
